@@ -1,6 +1,6 @@
 (* C10 — the style attribute and the style object are one state seen three ways.
    The mapping is [sty s] (ordered property -> value); str(style) = as_str (sty s). *)
-From AHP Require Import Model.Base Model.Str Model.Attr Proofs.StrProofs Proofs.AttrProofs Corr.Run_Attr.
+From AHP Require Import Model.Base Model.Str Model.Attr Proofs.StrProofs Proofs.AttrProofs Proofs.CodecProofs Corr.Run_Attr.
 
 (* all write paths refine one put / one parse *)
 Theorem C10_style_dot : forall n v s, sty (style_dot n v s) = style_put (camel2dash n) v (sty s).
@@ -39,3 +39,24 @@ Example C10_ex : let s := style_dot "paddingTop" "5px" (assign_style "Color: RED
   /\ start_attrs (sync s) = "style=""color: RED; a: c; padding-top: 5px"""
   /\ styleToDict (as_str (sty s)) = sty s.
 Proof. vm_compute. auto. Qed.
+
+(* the text form and the object are one state: reading back str(style) gives the same ordered mapping, for every well-formed
+   mapping (names lower-case, stripped, without ':' or ';'; values non-empty, stripped, without ';'; no duplicate names) *)
+Theorem C10_text_round_trip : forall d, GoodStyle d -> styleToDict (as_str d) = d.
+Proof. exact styleToDict_as_str. Qed.
+(* parsing produces such mappings from every declaration list without empty names or values ... *)
+Theorem C10_parse_well_formed : forall s, Forall decl_ok (split ";" (strip s)) -> GoodStyle (styleToDict s).
+Proof. exact styleToDict_good. Qed.
+(* ... so the normalisation the library applies twice (StyleAttribute(text), then the copy through str) is idempotent ... *)
+Theorem C10_normalisation_idempotent : forall s, Forall decl_ok (split ";" (strip s)) -> styleToDict (as_str (styleToDict s)) = styleToDict s.
+Proof. exact style_normalise_idempotent. Qed.
+(* ... and writes through the style object keep the mapping well formed *)
+Theorem C10_put_well_formed : forall n v d, GoodStyle d -> good_name n -> good_value v -> GoodStyle (style_put n v d).
+Proof. exact GoodStyle_put. Qed.
+Example C10_ex_good : GoodStyle (styleToDict " Color : RED ;padding-top:5px; background: url(http://x/y)") /\ decl_ok " Color : RED ".
+Proof.
+  split.
+  - apply styleToDict_good. vm_compute. repeat constructor; discriminate.
+  - vm_compute. split; discriminate.
+Qed.
+
